@@ -343,6 +343,129 @@ Proof.
       apply map_eq_nil in Htro; subst. reflexivity.
 Qed.
 
+(* ---- the reopened tables as a state the store model passes through ---- *)
+
+Definition cr_bulk_op (o : cop) : Prop :=
+  match o with Std (InsertMany _ _) | BulkOverflow _ _ _ => True | _ => False end.
+
+Lemma apply_stmts_live_after : forall ms c, apply_stmts c (stmts_of ms) = live_after c ms.
+Proof.
+  induction ms as [|m ms IH]; intros c; [reflexivity|].
+  change (stmts_of (m :: ms)) with (stmts_of_micro m ++ stmts_of ms).
+  rewrite apply_stmts_app, IH. destruct m; reflexivity.
+Qed.
+
+Lemma apply_hist_stmts : forall h c, apply_stmts c (stmts_of (hist_script c h)) = hist_live c h.
+Proof. intros. rewrite apply_stmts_live_after. apply live_after_hist_script. Qed.
+
+(* the list of statements behind [durable], with the facts about it that hold for every
+   way of splitting the history around an atomic call *)
+Lemma crash_committed_stmts : forall lazy d0 t0 h tr k,
+  map fst tr = hist_script d0 h ->
+  let s := cr_run lazy (cr_init d0 t0) (firstn k tr) in
+  exists cl,
+    prefix cl (stmts_of (hist_script d0 h)) /\ reopen s = apply_stmts d0 cl /\
+    forall h1 o rest, h = h1 ++ o :: rest -> cr_atomic_op o ->
+      (length cl <= length (stmts_of (hist_script d0 h1)))%nat \/
+      (length (stmts_of (hist_script d0 h1)) + length (stmts_of (sscript (hist_live d0 h1) o))
+       <= length cl)%nat.
+Proof.
+  intros lazy d0 t0 h tr k Htr s.
+  destruct (refines_commit_model tok0 lazy d0 t0 _ tr k Htr) as (Hftr & cl & pl & Hs & Hc & _ & Hd & _).
+  fold s in Hd. exists cl. split; [|split; [exact Hd|]].
+  - apply prefix_trans with (cl ++ pl); [apply prefix_app_l|].
+    rewrite Hs, <- Htr. exists (stmts_of (map fst (skipn k tr))).
+    rewrite <- stmts_of_app, <- map_app, firstn_skipn. reflexivity.
+  - intros h1 o rest -> Ha.
+    destruct (forget_atomic tok0 (hist_live d0 h1) o Ha) as [Hat|Hnil].
+    + rewrite forget_hist_app in Hftr. cbn [forget_hist] in Hftr.
+      change (forget_op tok0 (hist_live d0 h1) o :: forget_hist tok0 (cop_live (hist_live d0 h1) o) rest)
+        with ([forget_op tok0 (hist_live d0 h1) o] ++ forget_hist tok0 (cop_live (hist_live d0 h1) o) rest) in Hftr.
+      rewrite !expand_all_app in Hftr.
+      apply map_fst_app in Hftr. destruct Hftr as (tr1 & tr23 & Hsplit & H1 & H23).
+      apply map_fst_app in H23. destruct H23 as (tro & tr2 & -> & Ho & H2).
+      unfold expand_all in Ho. cbn [flat_map] in Ho. rewrite app_nil_r in Ho.
+      pose proof (single_op_atomic lazy [] t0 tr1 tro tr2 _ k Hat Ho) as B.
+      cbv zeta in B. rewrite <- Hsplit in B. unfold recover in B. rewrite Hc, map_length in B.
+      unfold twrites in B. rewrite H1 in B. rewrite <- forget_hist_script, writes_of_forget, map_length in B.
+      rewrite <- forget_script, writes_of_forget, map_length in B. cbn [length Nat.add] in B. exact B.
+    + rewrite Hnil. cbn. lia.
+Qed.
+
+Lemma prefix_nil : forall A (p : list A), prefix p [] -> p = [].
+Proof. intros A p [q H]. apply app_eq_nil in H. tauto. Qed.
+
+(* a prefix of the statements of a history = the statements of some completed calls, then
+   possibly a proper non-empty prefix of the statements of the next call *)
+Lemma prefix_decompose : forall h c p,
+  prefix p (stmts_of (hist_script c h)) ->
+  exists h1 rest p',
+    h = h1 ++ rest /\ p = stmts_of (hist_script c h1) ++ p' /\
+    (p' = [] \/
+     exists o h2, rest = o :: h2 /\ prefix p' (stmts_of (sscript (hist_live c h1) o)) /\
+                  (0 < length p' < length (stmts_of (sscript (hist_live c h1) o)))%nat).
+Proof.
+  induction h as [|o h IH]; intros c p Hp.
+  - apply prefix_nil in Hp. subst. exists [], [], []. auto.
+  - cbn [hist_script] in Hp. rewrite stmts_of_app in Hp.
+    set (own := stmts_of (sscript c o)) in *.
+    destruct (Nat.le_gt_cases (length own) (length p)) as [Hlen|Hlen].
+    + destruct (prefix_long _ p own _ Hp Hlen) as [p2 Hp2]. subst p.
+      assert (Hp' : prefix p2 (stmts_of (hist_script (cop_live c o) h))).
+      { destruct Hp as [q Hq]. rewrite <- app_assoc in Hq. apply app_inv_head in Hq. exists q. exact Hq. }
+      destruct (IH _ _ Hp') as (h1 & rest & p' & -> & -> & Hcase).
+      exists (o :: h1), rest, p'. split; [reflexivity|]. split.
+      * cbn [hist_script]. rewrite stmts_of_app, <- app_assoc. reflexivity.
+      * exact Hcase.
+    + destruct p as [|x p].
+      * exists [], (o :: h), []. auto.
+      * exists [], (o :: h), (x :: p). split; [reflexivity|]. split; [reflexivity|]. right.
+        exists o, h. split; [reflexivity|]. split.
+        -- eapply prefix_short; [exact Hp|lia].
+        -- cbn [hist_live fold_left]. fold own. cbn [length] in *. lia.
+Qed.
+
+(* The reopened tables are the tables the store model has after some prefix of the CALLS,
+   except when the durable prefix of statements ends inside an insert_many: then the
+   statements [p'] (a proper part of that call's) are applied on top. *)
+Lemma reopened_is_call_prefix : forall lazy d0 t0 h tr k,
+  map fst tr = hist_script d0 h ->
+  let s := cr_run lazy (cr_init d0 t0) (firstn k tr) in
+  exists h1 rest p',
+    h = h1 ++ rest /\ reopen s = apply_stmts (hist_live d0 h1) p' /\
+    (p' = [] \/
+     exists o h2, rest = o :: h2 /\ cr_bulk_op o /\
+                  prefix p' (stmts_of (sscript (hist_live d0 h1) o)) /\
+                  (0 < length p' < length (stmts_of (sscript (hist_live d0 h1) o)))%nat).
+Proof.
+  intros lazy d0 t0 h tr k Htr s.
+  destruct (crash_committed_stmts lazy d0 t0 h tr k Htr) as (cl & Hpre & Hd & Hat). fold s in Hd.
+  destruct (prefix_decompose h d0 cl Hpre) as (h1 & rest & p' & Hh & Hcl & Hcase).
+  exists h1, rest, p'. split; [exact Hh|]. split.
+  - rewrite Hd, Hcl, apply_stmts_app, apply_hist_stmts. reflexivity.
+  - destruct Hcase as [E|(o & h2 & -> & Hp' & Hlen)]; [left; exact E|right].
+    exists o, h2. split; [reflexivity|]. split; [|split; assumption].
+    assert (Hna : ~ cr_atomic_op o).
+    { intros Ha. specialize (Hat h1 o h2 Hh Ha). rewrite Hcl, app_length in Hat. lia. }
+    destruct o as [o|]; [|exact I]. destruct o; cbn [cr_bulk_op]; try exact I;
+      try (exfalso; apply Hna; first [left; exact I | right; exact I]);
+      exfalso; cbn [sscript] in Hlen; try destruct (limit =? 0); cbn in Hlen; lia.
+Qed.
+
+(* without bulk inserts: exactly the store model's tables after a prefix of the calls *)
+Lemma reopened_is_call_prefix_no_bulk : forall lazy d0 t0 h tr k,
+  map fst tr = hist_script d0 h -> Forall (fun o => ~ cr_bulk_op o) h ->
+  let s := cr_run lazy (cr_init d0 t0) (firstn k tr) in
+  exists h1 rest, h = h1 ++ rest /\ reopen s = hist_live d0 h1.
+Proof.
+  intros lazy d0 t0 h tr k Htr Hnb s.
+  destruct (reopened_is_call_prefix lazy d0 t0 h tr k Htr) as (h1 & rest & p' & Hh & Hd & Hcase).
+  fold s in Hd. exists h1, rest. split; [exact Hh|].
+  destruct Hcase as [->|(o & h2 & -> & Hb & _)]; [exact Hd|].
+  exfalso. rewrite Hh in Hnb. apply Forall_app in Hnb. destruct Hnb as [_ Hnb].
+  inversion Hnb; subst. contradiction.
+Qed.
+
 (* ---- the driver's row-by-row executemany ---- *)
 
 Lemma cr_run_flatten : forall lazy s qs c cs,
@@ -432,4 +555,14 @@ Proof.
   destruct (sql_bucket_rowid (sq_upserts c b es) b) as [rid|] eqn:E.
   - apply (bulk_known b _ _ rid). exact E.
   - cbn [map apply_stmts fold_left]. symmetry. apply bulk_unknown. exact E.
+Qed.
+
+(* a crash between two rows of an executemany finds what a crash before it finds *)
+Lemma exec_rows_keep_durable : forall lazy qs s cs j,
+  reopen (cr_run lazy s (firstn j (combine (map SExec qs) cs))) = reopen s.
+Proof.
+  intros lazy qs. induction qs as [|q qs IH]; intros s cs j.
+  - destruct j; reflexivity.
+  - destruct cs as [|c cs]; [destruct j; reflexivity|]. destruct j; [reflexivity|].
+    cbn [map combine firstn]. rewrite cr_run_cons, IH. reflexivity.
 Qed.
